@@ -572,7 +572,6 @@ impl<'a, 'b> GeneratorState<'a> {
                 cmp = true;
                 signed = *sign;
                 self.acc_in_use = false;
-                self.flags = FlagsState::A;
             }
             ExprType::Tmp(sign) => {
                 if self.acc_in_use {
@@ -706,7 +705,12 @@ impl<'a, 'b> GeneratorState<'a> {
                         self.asm(CMP, right, pos, false)?;
                         self.flags = FlagsState::Unknown;
                     } else {
-                        // No CMP
+                        // No CMP, unless the flags are not those of the accumulator any more
+                        // (second case of a switch, value returned by a function)
+                        if matches!(left, ExprType::A(_)) && !flags_ok(&self.flags, left) {
+                            self.asm(CMP, right, pos, false)?;
+                            self.flags = FlagsState::A;
+                        }
                         if self.saved_y {
                             return Err(self
                                 .compiler_state
